@@ -720,6 +720,10 @@ impl Image {
         if file_name.parent().is_some_and(|p| !p.as_os_str().is_empty()) {
             return Err(StoreError::Subdir);
         }
+        // The file name is written to the `fileName` attribute of the glif.
+        if file_name.to_str().is_none() {
+            return Err(StoreError::PathNotUnicode);
+        }
         Ok(Self { file_name, color, transform })
     }
 
